@@ -14,7 +14,10 @@ open GeomV
 
 def xorC1 : UInt64 := 0x00000000000a5a50
 def xorC2 : UInt64 := 0x0000000000055aa0
-def swapXor (p : Pt UInt64) : Pt UInt64 := ⟨p.y ^^^ xorC1, p.x ^^^ xorC2⟩
+/-- the synthetic transformer's map: swap and xor, except that a vertex whose low byte of x is 0x1D is a FIXED
+POINT (one vertex that does not move says nothing about the others: seeded change C10-f2) -/
+def swapXor (p : Pt UInt64) : Pt UInt64 :=
+  if p.x &&& 0xFF = 0x1D then p else ⟨p.y ^^^ xorC1, p.x ^^^ xorC2⟩
 
 /-- kind `p`: fails on a poison vertex (low byte of x = 0xEE) with id = low 16 bits of y -/
 def tPure : TF Nat UInt64 := fun p =>
